@@ -183,4 +183,5 @@ Proof.
     destruct (N.eqb_spec ri i) as [->|]; [reflexivity|cbn in Hp; congruence].
   - unfold eenv in Hp; cbn in Hp; congruence.
   - unfold eenv in Hp; cbn in Hp; congruence.
+  - congruence.
 Qed.
